@@ -24,7 +24,18 @@ if [ -f "props/$lc/racemain.go" ] && [ "${1:-}" != "--replay" ]; then
   have_race=yes
 fi
 if [ "${1:-}" = "--build" ]; then exit 0; fi
-if [ "${1:-}" = "--replay" ]; then exec "bin/${lc}_mc" --replay "$2"; fi
+if [ "${1:-}" = "--replay" ]; then
+  if [ "$(jq -r '.replay.mode // empty' "$2" 2>/dev/null)" = race ] && [ -f "props/$lc/racemain.go" ]; then
+    # a data-race report: re-run the free-running -race pass (sampling: the report may need several runs)
+    go build -race -tags verif -o "bin/${lc}_race" ./props/$lc || exit 2
+    for i in 1 2 3 4 5; do
+      GORACE="exitcode=66 halt_on_error=1" VERIF_PART="$B/race-replay.json" VERIF_PART_NAME=race-pass "bin/${lc}_race" quick > "$B/race.log" 2>&1
+      if [ $? = 66 ]; then head -40 "$B/race.log"; echo "VIOLATION property=$id replay=$2"; exit 1; fi
+    done
+    echo "$id replay: no data race reported in 5 free-running passes"; exit 0
+  fi
+  exec "bin/${lc}_mc" --replay "$2"
+fi
 run_race() { # $1 = part file
   GORACE="exitcode=66 halt_on_error=1" VERIF_PART="$1" VERIF_PART_NAME=race-pass "bin/${lc}_race" "${tier}" > "$B/race.log" 2>&1; rc=$?
   if [ $rc = 66 ]; then
